@@ -175,9 +175,13 @@ def check(run):
             if not (t[0] == "res" and t[2] == f"self.{sg.lf}"):
                 ok, why = False, f"{label} is {ir.show_nl(t)[:120]}, not the loss value itself"
     else:
+        from .sagecore import undecided_bookkeeping
+        undecided_bookkeeping(sg)       # losses kept in a container filled during the walk: no verdict
         ok, why = False, "no carried chain loss"
     from .c06 import depends_on
     depends_on(run, "C10")
+    depends_on(run, "C02", {"FORMULA"})         # PFI tracks the centred contribution mean(losses) - loss, not two raw losses
+    depends_on(run, "C12", {"TYPESTATE"})       # one tracker per key
     run.check(ok, "CHAIN", "raw-losses", sg.where(sg.L.line), sg.fq, f"chain losses: {why or 'as returned'}",
               f"the chain must difference the loss values as returned by the loss function: {why} (adding an offset before "
               f"differencing rounds small losses to the float grid of the offset)", "chain losses are the loss results themselves")
